@@ -1043,6 +1043,7 @@ func checkC13(P *Program, r *Result, tier string) {
 		}
 	}
 	r.add("TRIPLE", shortName(wrs), "hdr", "each field header carries the Type and ID of the field written after it", P.pos(wrs.Pos()), hdrOK, "")
+	errDisciplineRule(P, r, "ERR-USED", pkgFuncs(P, "protocol/thrift/unknownfields"))
 }
 
 // calleeLinearSym is calleeLinear with canonical length symbols.
